@@ -59,7 +59,8 @@ Definition dec_token (c : cfg) : M token :=
   | TUnknown n => fail (TypeMismatch (TUnknown n))
   end.
 
-(* token.rs:171 — Encode for Token; None = Encoder::simple refused 24..=31.
+(* token.rs:171 — Encode for Token.  No variant is refused (the option is kept for the callers; it is
+   always Some): Token::Simple(24..=31) is written as f8 x like Encoder::simple does (finding F2b).
    Token::F16(x) goes through half::f16::from_f32 (encoder.rs:184). *)
 Definition enc_token (t : token) : option (list chunk) :=
   match t with
@@ -74,7 +75,7 @@ Definition enc_token (t : token) : option (list chunk) :=
   | TkBytes b => Some (enc_bytes b) | TkString b => Some (enc_str b)
   | TkArray n => Some (enc_array n) | TkMap n => Some (enc_map n)
   | TkTag n => Some (enc_tag n)
-  | TkSimple n => enc_simple n
+  | TkSimple n => Some (enc_simple n)
   | TkBreak => Some enc_end
   | TkNull => Some enc_null | TkUndefined => Some enc_undefined
   | TkBeginBytes => Some enc_begin_bytes | TkBeginString => Some enc_begin_str
@@ -82,7 +83,7 @@ Definition enc_token (t : token) : option (list chunk) :=
   end.
 
 (* encoder.rs:274 — Encoder::tokens: `for t in tokens { self.encode(t)?; }`.
-   None = some token was refused (what had been written before stays in the sink; C13). *)
+   None = some token was refused; no token is (enc_token is always Some), the shape follows the `?`. *)
 Fixpoint enc_tokens (ts : list token) : option (list chunk) :=
   match ts with
   | [] => Some []
